@@ -1,4 +1,6 @@
 import AasVerif.Lemmas.TsPreserve
+import AasVerif.Lemmas.JavaPreserve
+import AasVerif.Lemmas.CppPreserve
 import AasVerif.Lemmas.TsSem
 import AasVerif.Lemmas.PyEmit
 /-!
@@ -173,5 +175,115 @@ set_option maxRecDepth 8000 in
 theorem ts_example_in_domain :
     evalT tsSem envA outA = .val (.bool true) ∧ coarse (Expr.eval envA invA) = .val (.bool true) :=
   ⟨rfl, rfl⟩
+
+/-! ## (2') Java: what is emitted means what the invariant means -/
+
+/-- **java_preserves** (whole invariant language; the literal parts of f-strings without braces).
+For every expression the Java transpiler accepts (whatever the context flags of the node), in every
+environment in which `len` is the built-in: evaluating the emitted expression with the Java
+semantics `javaSem` either leaves the modelled domain, or gives exactly the (coarse) outcome of the
+Python evaluation of the source expression.  Covers `Optional` unwrapping (`.get()`,
+`.orElse(null)`, `.isPresent()`), `c.get(c.size() - n)` for constant indices from the end,
+`length()` / `size()`, `contains`, streams with `anyMatch` / `allMatch`, `IntStream.range`. -/
+theorem java_preserves (cfg : TCfg) (vs : List Text) (ctx : Java.Ctx) (e : Expr) (x : TExpr)
+    (hv : noLenVar e = true) (hb : noBraces e = true) (h : Java.transpile cfg vs ctx e = .ok x)
+    (ρ : Env) (hl : LenBuiltin ρ) :
+    evalT javaSem ρ x = .off ∨ evalT javaSem ρ x = coarse (Expr.eval ρ e) :=
+  TargetEmit.java_preserves javaSem javaSem_sound javaSem_sizeIndex cfg e vs ctx x hv hb h ρ hl
+
+/-- The Java semantics used is sound: wherever a primitive is defined in `javaSem` it computes what
+the Python primitive computes (including the index `size() - n` counted from the end). -/
+theorem java_semantics_sound : SemSound javaSem ∧ SizeIndexSound javaSem := ⟨javaSem_sound, javaSem_sizeIndex⟩
+
+/-- **C09 at expression level, Java.** The condition the Java SDK evaluates for an invariant and the
+condition the Python SDK evaluates for it have the same outcome on every instance — unless the Java
+evaluation leaves the modelled domain (which it does for `==` on two strings or two boxed numbers:
+C09-F1). -/
+theorem java_agrees_with_python_sdk (cfg : TCfg) (pcfg : PyEmit.Cfg) (e : Expr) (x : TExpr) (px : PyEmit.PyExpr)
+    (hv : noLenVar e = true) (hb : noBraces e = true) (hfloat : PyEmit.noNan e = true)
+    (h : Java.transpile cfg [] .plain e = .ok x) (hp : PyEmit.transpile pcfg [] e = .ok px)
+    (ρ : Env) (hl : LenBuiltin ρ) :
+    evalT javaSem ρ x = .off ∨ evalT javaSem ρ x = coarse (PyEmit.PyExpr.eval ρ px) := by
+  rw [PyEmit.preserves pcfg e [] px hfloat hp ρ]
+  exact java_preserves cfg [] .plain e x hv hb h ρ hl
+
+/-- Outside the domain: `==` on two `String` operands (both of reference type) is a comparison of
+references in Java; `javaSem` claims nothing for it (finding C09-F1, confirmed by javac + java). -/
+theorem java_string_equality_is_outside_the_domain (f : FloatOps) (a b : Text) (op : Cmp) :
+    javaSem.cmp f op true true (.str a) (.str b) = none := by
+  cases op <;> rfl
+
+/-- … and so is `==` on two boxed numbers, while a boxed number against a primitive is compared by value. -/
+theorem java_boxed_number_equality (f : FloatOps) :
+    javaSem.cmp f .eq true true (.int 1000) (.int 1000) = none ∧
+      javaSem.cmp f .eq true false (.int 1000) (.int 1000) = some (.val (.bool true)) := ⟨rfl, rfl⟩
+
+/-- Full statement (false) without `noBraces`: the Java transpiler doubles the braces of the literal
+parts of an f-string, so `f"{{"` (the text `{`) is emitted as the Java literal `"{{"`. -/
+theorem java_preserves_full_fails :
+    ∃ (cfg : TCfg) (e : Expr) (x : TExpr) (ρ : Env),
+      Java.transpile cfg [] .plain e = .ok x ∧
+      evalT javaSem ρ x = .val (.str [123, 123]) ∧ coarse (Expr.eval ρ e) = .val (.str [123]) :=
+  ⟨cfgA, .joinedStr [.lit [123]], .interp .java [.lit [123, 123]], envA, rfl, rfl, rfl⟩
+
+/-- `"😀".length()` is 2 in Java as well. -/
+theorem java_length_of_astral_is_outside_the_domain : javaSem.len .javaLength (.str [0x1F600]) = none := rfl
+
+/-! ## (2'') C++: what is emitted means what the invariant means -/
+
+/-- **cpp_preserves** (whole invariant language).  `D` lists the enumerations with their literals.
+If the configuration says "enumeration type" only of the names of these enumerations (`CfgEnum`),
+no generator variable hides `len` or an enumeration and there is no member access on an
+enumeration *value* (`cppOK`), then in every environment in which `len` is the built-in and the
+enumeration names denote their classes (`CppEnv`): evaluating the emitted expression with the C++
+semantics `cppSem` either leaves the modelled domain, or gives exactly the (coarse) outcome of the
+Python evaluation.  Covers the de-referencing of optionals at every operand position (`*x`,
+`(*(x))`), `types::Enum::kLiteral` in place of the member access, `.at(i)`, `.back()`,
+`.at(c.size() - n)`, `common::Contains`, `common::Concat` with the conversions, `common::Some` /
+`All` / `SomeRange` / `AllRange` with the lambdas. -/
+theorem cpp_preserves (cfg : TCfg) (D : List (Text × List Text)) (hcfg : CfgEnum cfg D) (vs : List Text)
+    (e : Expr) (x : TExpr) (hok : cppOK cfg (reserved D) e = true) (h : Cpp.transpile cfg vs e = .ok x)
+    (ρ : Env) (hρ : CppEnv D ρ) :
+    evalT cppSem ρ x = .off ∨ evalT cppSem ρ x = coarse (Expr.eval ρ e) :=
+  TargetEmit.cpp_preserves cppSem cppSem_sound cppSem_sizeIndex cfg D hcfg e vs x hok h ρ hρ
+
+/-- The C++ semantics used is sound. -/
+theorem cpp_semantics_sound : SemSound cppSem ∧ SizeIndexSound cppSem := ⟨cppSem_sound, cppSem_sizeIndex⟩
+
+/-- **C09 at expression level, C++.** -/
+theorem cpp_agrees_with_python_sdk (cfg : TCfg) (D : List (Text × List Text)) (hcfg : CfgEnum cfg D)
+    (pcfg : PyEmit.Cfg) (e : Expr) (x : TExpr) (px : PyEmit.PyExpr)
+    (hok : cppOK cfg (reserved D) e = true) (hfloat : PyEmit.noNan e = true)
+    (h : Cpp.transpile cfg [] e = .ok x) (hp : PyEmit.transpile pcfg [] e = .ok px)
+    (ρ : Env) (hρ : CppEnv D ρ) :
+    evalT cppSem ρ x = .off ∨ evalT cppSem ρ x = coarse (PyEmit.PyExpr.eval ρ px) := by
+  rw [PyEmit.preserves pcfg e [] px hfloat hp ρ]
+  exact cpp_preserves cfg D hcfg [] e x hok h ρ hρ
+
+/-- Outside the domain: a negative number next to a `size_t` (`-1 >= v.size()` is true in C++),
+the de-reference of an empty optional and `back()` of an empty vector (undefined behaviour). -/
+theorem cpp_excluded_regions (f : FloatOps) :
+    cppSem.cmp f .ge false false (.int (-1)) (.int 0) = none ∧
+      cppSem.unwrap .cppDeref .none = none ∧ cppSem.index .cppBack (.list []) (.int (-1)) = none :=
+  ⟨rfl, rfl, rfl⟩
+
+/-- Full statement (false) without `cppOK`: for a member access on an enumeration *value*
+(`self.c.G`) the C++ transpiler names the literal `types::C::kG`, Python raises. -/
+def cfgE : TCfg :=
+  ⟨⟨fun _ => none, fun _ _ => some .prop, fun _ => .notFunction⟩,
+   fun e => match e with
+     | .name _ => some ⟨.cls, false, false⟩
+     | _ => some ⟨.enumOur [67], false, false⟩⟩
+
+def envE : Env :=
+  ⟨[(TargetEmit.selfName, .inst 0 [88] [([99], .enumLit [67] [82])])], fun _ => none, fun _ _ => none,
+   ⟨fun _ _ _ => .otherError, fun _ _ _ => .otherError, fun _ => false, fun t => t⟩, fun _ => .otherError⟩
+
+set_option maxRecDepth 8000 in
+theorem cpp_preserves_full_fails :
+    ∃ x, Cpp.transpile cfgE [] (.member (.member (.name TargetEmit.selfName) [99]) [71]) = .ok x ∧
+      evalT cppSem envE x = .val (.enumLit [67] [71]) ∧
+      coarse (Expr.eval envE (.member (.member (.name TargetEmit.selfName) [99]) [71])) = .raised :=
+  ⟨.enumLit [67] [71], rfl, rfl, rfl⟩
 
 end AasVerif.Props.C09
